@@ -1,9 +1,12 @@
 /-
   Props/C20Full.lean — the module audited for C20: Props/C20Exact.lean (and what it imports) together with
   Props/C20Ieee.lean (the IEEE / real-analysis instantiations), Props/C20IeeeTicks.lean and
-  Props/C20IeeeErr.lean (rounding-error bound for the accumulated tick distances). All in namespace Rosu.C20.
+  Props/C20IeeeErr.lean (rounding-error bound for the accumulated tick distances) and Props/C20IeeeErr2.lean
+  (rounding-error bounds for the tick path progress and the tick time, via Lemmas/FloatErrMul.lean,
+  Lemmas/FloatErrRange.lean). All in namespace Rosu.C20.
 -/
 import RosuModel.Props.C20Exact
 import RosuModel.Props.C20Ieee
 import RosuModel.Props.C20IeeeTicks
 import RosuModel.Props.C20IeeeErr
+import RosuModel.Props.C20IeeeErr2
